@@ -48,6 +48,15 @@ def aimed():
                 "doc": {"content": "block+"}, "p": {"content": "(text image)*", "group": "block"},
                 "quote": {"content": "block+", "group": "block"},
                 "image": {"inline": True}, "text": {"inline": True}}, "marks": {"em": {}}}), "alternating-inline"),
+            # `joinable` asks can_append (B's content continues A's), the join asks compatible_content (the start states share an edge)
+            schemas.SchemaInfo(Schema({"nodes": {
+                "doc": {"content": "A (A | B)*"}, "A": {"content": "x y*"}, "B": {"content": "y+"},
+                "x": {}, "y": {}, "text": {}}}), "join-incompatible"),
+            # not TextStable: can_append accepts `text text text image`, the join merges two of the texts
+            schemas.SchemaInfo(Schema({"nodes": {
+                "doc": {"content": "(A | B)+"}, "A": {"content": "(text|image) (text|image) (text image)?"},
+                "B": {"content": "(text|image) image"},
+                "image": {"inline": True}, "text": {"inline": True}}, "marks": {"em": {}}}), "join-unstable"),
         ]
     return _AIMED
 
@@ -195,8 +204,10 @@ def run(ctx):
                 if st != "ok":
                     ctx.violation("can_join-raises", f"can_join raised {ok}", replay)
                 elif ok or rng.random() < 0.03:
-                    perform(ctx, info, d, "join", lambda tr: tr.join(pos), replay, reqs, metas, bool(ok) and bundled,
-                            build={"k": "join", "pos": pos, "depth": 1})
+                    done = perform(ctx, info, d, "join", lambda tr: tr.join(pos), replay, reqs, metas, bool(ok) and bundled,
+                                   build={"k": "join", "pos": pos, "depth": 1})
+                    if ok:
+                        guard(info, d, "join", {"pos": pos}, replay, done is not None)
                 for direction in (-1, 1):
                     st, jp = outcome(lambda: join_point(d, pos, direction))
                     replay = dict(base, helper="join_point", dir=direction)
